@@ -11,7 +11,8 @@ EXPLANATION = ("Decides the premises from which the property follows for every s
                "write_all of the whole buffer) in every emitting body of the file and std writers, the thread-local buffer empty again at exit, the "
                "recursion arm using a fresh buffer; the state is only reachable through its Mutex guard (type system + R03.1); R03.3 one send per "
                "record, the receiver moved into exactly one spawned closure and never cloned, each data message written by one call; R03.4 pooled "
-               "buffers are cleared immediately before being pushed to the pool; R03.5 inventory of global mutable state; R03.6 in the buffered stdout/stderr mode every record is written into the one BufWriter reached through its Mutex guard (a second handle to the stream or a print macro would let a record overtake the thread's buffered ones).")
+               "buffers are cleared immediately before being pushed to the pool; R03.5 inventory of global mutable state; R03.6 in the buffered stdout/stderr mode every record is written into the one BufWriter reached through its Mutex guard (a second handle to the stream or a print macro would let a record overtake the thread's buffered ones)."
+               " R03.7 (shared with R01.4): at a rotation the writer is swapped - the old BufWriter dropped, hence flushed - before the cleanup may compress or remove the closed file.")
 ASSUMPTIONS = ["Mutex/RwLock give mutual exclusion, Stderr/Stdout::write_all holds the stream lock for the whole call (std)",
                "crossbeam unbounded channels are FIFO per sender", "write(2) on the same file description is not interleaved by the OS within one write_all of a BufWriter flush (not decided)"]
 NOT_DECIDED = ["atomicity of write(2)", "fairness", "interleaving of different sinks (file vs duplicate)"]
